@@ -51,7 +51,8 @@ def jobs(tier, seed):
     for field in ('name', 'reading', 'memo', 'nickname', 'email', 'phone', 'url', 'city', 'pobox', 'country'):
         for k in range(1, n + 1):
             out.append({'name': f'mecard:{field}:n={k}', 'kind': 'mecard', 'field': field, 'n': k, 'cost': 5 ** k})
-    for field in ('name', 'displayname', 'email', 'phone', 'memo', 'nickname', 'org', 'title', 'url', 'street', 'city', 'source', 'fax'):
+    for field in ('name', 'displayname', 'email', 'phone', 'memo', 'nickname', 'org', 'title', 'url', 'street', 'city', 'source', 'fax',
+                  'photo_uri', 'videophone', 'cellphone', 'homephone', 'workphone', 'pobox', 'region', 'zipcode', 'country'):
         for k in range(1, nv + 1):
             out.append({'name': f'vcard:{field}:n={k}', 'kind': 'vcard', 'field': field, 'n': k, 'cost': 4 ** k})
     out.append({'name': 'epc:limits', 'kind': 'epc', 'cost': 60})
@@ -283,9 +284,12 @@ def job_vcard(res, L_, spec):
     field, n = spec['field'], spec['n']
     sc, assume = sym_field(n)
     base = {'name': 'Doe;John', 'displayname': 'John Doe', 'email': None, 'phone': None, 'memo': None, 'nickname': None, 'org': None, 'title': None, 'url': None,
-            'street': None, 'city': None, 'source': None, 'fax': None}
-    props = [('org', 'ORG'), ('email', 'EMAIL'), ('phone', 'TEL'), ('fax', 'TEL;TYPE=FAX'), ('url', 'URL'), ('title', 'TITLE'), ('nickname', 'NICKNAME'),
-             ('ADR', 'ADR'), ('source', 'SOURCE'), ('memo', 'NOTE')]
+            'street': None, 'city': None, 'source': None, 'fax': None, 'photo_uri': None, 'videophone': None, 'cellphone': None, 'homephone': None,
+            'workphone': None, 'pobox': None, 'region': None, 'zipcode': None, 'country': None}
+    props = [('org', 'ORG'), ('email', 'EMAIL'), ('phone', 'TEL'), ('fax', 'TEL;TYPE=FAX'), ('videophone', 'TEL;TYPE=VIDEO'), ('cellphone', 'TEL;TYPE=CELL'),
+             ('homephone', 'TEL;TYPE=HOME'), ('workphone', 'TEL;TYPE=WORK'), ('url', 'URL'), ('title', 'TITLE'), ('photo_uri', 'PHOTO;VALUE=uri'),
+             ('nickname', 'NICKNAME'), ('ADR', 'ADR'), ('source', 'SOURCE'), ('memo', 'NOTE')]
+    ADR_FIELDS = ('pobox', 'street', 'city', 'region', 'zipcode', 'country')
 
     def kwargs(text):
         kw = dict(base)
@@ -316,7 +320,7 @@ def job_vcard(res, L_, spec):
         names = ['BEGIN:VCARD', 'VERSION:3.0', 'N:', 'FN:']
         for k, tag in props:
             if k == 'ADR':
-                if kw['street'] or kw['city']:
+                if any(kw[a] for a in ADR_FIELDS):
                     names.append('ADR:')
             elif kw[k]:
                 names.append(tag + ':')
@@ -569,7 +573,9 @@ def replay(viol):
         kw = inp['kwargs']
         s = H.make_vcard_data(**kw)
         lines = s.split('\r\n')
-        n_exp = 4 + sum(1 for k in ('org', 'email', 'phone', 'fax', 'url', 'title', 'nickname', 'source', 'memo') if kw.get(k)) + (1 if kw.get('street') or kw.get('city') else 0) + 2
+        n_exp = 4 + sum(1 for k in ('org', 'email', 'phone', 'fax', 'url', 'title', 'nickname', 'source', 'memo', 'photo_uri', 'videophone', 'cellphone',
+                                     'homephone', 'workphone') if kw.get(k)) \
+            + (1 if any(kw.get(a) for a in ('pobox', 'street', 'city', 'region', 'zipcode', 'country')) else 0) + 2
         bare = any('\r' in ln or '\n' in ln for ln in lines)
         return len(lines) != n_exp or bare, f'make_vcard_data({kw}) has {len(lines)} content lines (expected {n_exp}), bare CR/LF inside a line: {bare}: {s!r}'
     if fn == 'epc':
